@@ -8,6 +8,7 @@ The modelled design (built for real in vf/props/c03.py):
   leaf module : sp[1] (bit 1 of sp, toggles, domain other -- sync in single-domain designs)
                 memory 2 x 1 bit, write port (sync): mem[cnt[0]] <= d, en = 1
                                   sync read port (sync): rdata <= mem[rl], en = 1, not transparent
+                obs = Cat(ClockSignal("sync"), ResetSignal("sync", allow_reset_less=True))   (combinational)
   top         : defines the clock domains; core = wrap_top(Core(leaf = wrap_sub(Leaf)))
 
 Semantics implemented here (the statement, literally):
@@ -21,6 +22,8 @@ Semantics implemented here (the statement, literally):
     module (submodules included) and its *current* domain name is one the wrapper names; DomainRenamer changes the
     current name; an enable freezes (ANDs into) everything already present on the element: its update and the
     resets inserted before; it never touches the domain reset nor wrappers applied later;
+  * obs shows the clock level and the reset level (0 for a reset-less domain) of the domain the leaf's "sync"
+    finally is, whatever the inserted controls are (inserters never affect combinational logic);
   * memory: write happens at the active edge of the port's domain iff all enables are asserted (resets do not clear
     rows), read port data is loaded at the active edge iff all enables are asserted, and sees the row before the write.
 """
@@ -99,6 +102,7 @@ class Model:
             if WRAPPERS[w][0] == "rename" and not two:
                 raise ValueError("DomainRenamer needs the second domain")
         self.controls = sorted(used)
+        self.obs_dom = self.wp.dom        # what the leaf calls "sync" is finally this domain
         self.sync_inputs = ["d"] + self.controls + [f"rst_{n}" for n in self.dom_names if self.rkind[n] == "sync"]
         self.in_index = {n: k for k, n in enumerate(self.sync_inputs)}
 
@@ -238,10 +242,12 @@ class Model:
                 if self.wp.dom == dom:
                     if all(iv[c] for c in self.wp.ens):
                         rows2[v["cnt"] & 1] = iv["d"]
+                        why["mem"] = "write"
                         flags.append("mem_write")
                         if self.wp.dom != self.wp.dom0:
                             flags.append("mem_ports_renamed")
                     else:
+                        why["mem"] = "write-gated"
                         flags.append("mem_write_gated_by_enable")
         packed = 0
         for e in self.elems:
@@ -253,6 +259,13 @@ class Model:
             allowed.add(((packed & ~(1 << o)) | (rdata_alt << o), rows2, lv2))
         self._why = why
         return allowed, tuple(flags), lv2
+
+    def expected_obs(self, inp, lv2):
+        """Cat(ClockSignal("sync"), ResetSignal("sync", allow_reset_less=True)) evaluated in the leaf after the event"""
+        dom = self.obs_dom
+        clk = (lv2 >> self.dom_names.index(dom)) & 1
+        iv = {n: (inp >> k) & 1 for k, n in enumerate(self.sync_inputs)}
+        return clk | (self._dom_reset(dom, iv, lv2) << 1)
 
     def event_name(self, m, kind, arg):
         lv = m[2]
@@ -272,11 +285,7 @@ class Model:
         """human-readable differences between the implementation's successor state and the (first) allowed one"""
         self.step(m, inp, kind, arg)
         why = self._why
-        want = sorted(allowed)[0]
-        for cand in sorted(allowed):
-            if cand[0] == got[0] or cand[1] == got[1]:
-                want = cand
-                break
+        want = min(sorted(allowed), key=lambda c: bin(c[0] ^ got[0]).count("1"))
         ev = self.event_name(m, kind, arg)
         iv = {n: (inp >> k) & 1 for k, n in enumerate(self.sync_inputs)}
         ins = ",".join(f"{n}={x}" for n, x in iv.items())
@@ -288,8 +297,7 @@ class Model:
                             f"(was {pre[e.name]}; inputs {ins}; levels {m[2]:0{self.nclk + len(self.arst_doms)}b})")
         for k in range(2):
             if got[1][k] != want[1][k]:
-                act = "write" if self.wp.dom in ev and (self.wp.dom + "+") in ev else "no-write"
-                errs.append(f"mem[{k}]({self.wp.dom}):{ev}:{act} got {got[1][k]}, model {want[1][k]} (was {m[1][k]}; cnt={pre['cnt']}; "
+                errs.append(f"mem[{k}]({self.wp.dom}):{ev}:{why.get('mem', 'not-its-event')} got {got[1][k]}, model {want[1][k]} (was {m[1][k]}; cnt={pre['cnt']}; "
                             f"inputs {ins})")
         if got[2] != want[2]:
             errs.append(f"levels:{ev} got {got[2]:b}, model {want[2]:b}")
